@@ -2,12 +2,13 @@
 # par_try.sh <slot> <patch|-> <ID> [tier]: like try_seed.sh, but inside a private mount namespace in which copies of
 # /repo and /verif (kept under /tmp/par/<slot>, refreshed by rsync on every call) are bind-mounted over /repo and
 # /verif. Several slots can run at once; /repo, /verif/evidence and /verif/replays themselves are never touched.
+# PAR_SRC=<dir>: take the machinery from a snapshot instead of /verif (so that /verif can be edited meanwhile).
 # Maintenance tool for the seeded-change loop only (not a registered check). "-" = no patch (clean tree).
 SLOT=$1; P=$2; ID=$3; TIER=${4:-quick}
 S=/tmp/par/$SLOT
 mkdir -p $S/repo $S/verif || exit 2
 rsync -a --delete --exclude /target /repo/ $S/repo/ || exit 2
-rsync -a --delete --exclude /evidence --exclude /replays --exclude /target /verif/ $S/verif/ || exit 2
+rsync -a --delete --exclude /evidence --exclude /replays --exclude /target ${PAR_SRC:-/verif}/ $S/verif/ || exit 2
 # the slot keeps its own build cache; it is seeded once from /verif/target (files of a running build may vanish: fine)
 [ -d $S/verif/target ] || { rsync -a /verif/target/ $S/verif/target/; [ $? = 0 -o $? = 24 ] || exit 2; }
 mkdir -p $S/verif/evidence $S/verif/replays
